@@ -12,7 +12,8 @@ import itertools
 
 CONDS = ["true", "false", "K==1", "K%2==0", "K<2", "p==1", "!(K==1)", "K==1&&p<2", "K==1||p==2", "K>=1", "K!=1", "(\"s\"+K)==\"s1\"", "bf(K)",
          "K==1&&p<2||K==2", "K==2||p<2&&K==1",     # these two: grouping decided by precedence in the minimal-parentheses rendering
-         "flg[zi]", "box.on", "!box.on", "flg[zi]&&K==1"]     # the condition is a bare list element / object field (a reference, not a value)
+         "flg[zi]", "box.on", "!box.on", "flg[zi]&&K==1",
+         "g(0)<g(1)", "g(K)-g(0)==K", "bf(2)==bf(K)"]              # both operands of a comparison / an arithmetic operator log their evaluation: the order is visible     # the condition is a bare list element / object field (a reference, not a value)
 D_COND = 2
 WHILE_N = [0, 1, 2, 3]
 D_N = 2
@@ -179,7 +180,10 @@ def cond_ast(c, K):
             ("bin", "||", ("bin", "&&", ("bin", "==", k, ("int", 1)), ("bin", "<", p, ("int", 2))), ("bin", "==", k, ("int", 2))),
             ("bin", "||", ("bin", "==", k, ("int", 2)), ("bin", "&&", ("bin", "<", p, ("int", 2)), ("bin", "==", k, ("int", 1)))),
             ("index", var("flg"), var("zi")), ("field", var("box"), "on"), ("not", ("field", var("box"), "on")),
-            ("bin", "&&", ("index", var("flg"), var("zi")), ("bin", "==", k, ("int", 1)))][c]
+            ("bin", "&&", ("index", var("flg"), var("zi")), ("bin", "==", k, ("int", 1))),
+            ("bin", "<", ("call", var("g"), [("int", 0)]), ("call", var("g"), [("int", 1)])),
+            ("bin", "==", ("bin", "-", ("call", var("g"), [k]), ("call", var("g"), [("int", 0)])), k),
+            ("bin", "==", ("call", var("bf"), [("int", 2)]), ("call", var("bf"), [k]))][c]
 
 
 def probe(ctx, counters):
